@@ -19,10 +19,10 @@ _COMMON = (
     "chunk reader or *bytes.Buffer; sink or *bytes.Buffer) then Reset == new coder on input 2 (all results, errors, offsets, depths, pointers, bytes delivered). "
     "OUTSIDE: goroutine interleavings and data races (the engine is sequential), typed Marshal/Unmarshal and the arshaler/type caches, string interning cache, "
     "panicking user code, 1 MiB documents, Deterministic(true) map ordering, cross-process determinism, pool behaviour other than LIFO reuse (e.g. GC emptying a pool "
-    "is the 'fresh' case), inputs outside the templates/alphabet, histories longer than 2 earlier calls (3 including the reference run, whose coder A recycles).")
+    "is the 'fresh' case), inputs outside the templates/alphabet, histories longer than 1 earlier call (hist), 2 (hist3), 8 (strikes); A itself starts from empty pools.")
 BOUNDS = {
     "quick": _COMMON % ("", "<=3+2"),
-    "thorough": _COMMON % (", free bytes up to 3, an error exit 1101 objects deep (beyond the stack sizes that reset keeps)", "<=4+4"),
+    "thorough": _COMMON % (", free bytes up to 3, an error exit 1101 objects deep (beyond the stack sizes that reset keeps)", "<=3+3"),
 }
 ASSUMPTIONS = [
     "sync.Pool modelled as a LIFO stack per pool (Get = most recently Put object, else New); PoolFresh makes Get call New",
@@ -89,7 +89,7 @@ def obligations(tier):
     # ---- Reset of public coders: tmpl1, opt1, reader/writer kind 1, calls1, tmpl2, opt2, kind 2, calls2
     RD = [('{"?":{"?":', 0, 0, 3, '{"?":?}', 0, 0, 2), ('[{"?":1},', 1, 1, 3, '{"?":1,"?":2}', 0, 0, 2), ('{"?":1,"?":2}', 1, 0, 2, '[?,?', 0, 1, 2), ('[?', 0, 1, 2, '{"?":1,"?":2}', 0, 1, 2)]
     if not q:
-        RD += [('{"?":{"?":', 0, 0, 3, '{"?":?}', 0, 0, 3), ('{"?":1,"?":2}', 1, 0, 2, '[?,?', 0, 1, 3), ('??', 0, 1, 2, '{"?":1,"?":2}', 0, 1, 2), ('{"?":{"?":', 1, 1, 4, '{"?":?}', 0, 1, 3), ('[[?,{"?":', 0, 0, 4, '[{"?":?}]', 0, 0, 4), ('???', 2, 0, 3, '???', 0, 0, 3)]
+        RD += [('{"?":{"?":', 0, 0, 3, '{"?":?}', 0, 0, 3), ('{"?":1,"?":2}', 1, 0, 2, '[?,?', 0, 1, 3), ('??', 0, 1, 2, '{"?":1,"?":2}', 0, 1, 2), ('{"?":{"?":', 1, 1, 3, '{"?":?}', 0, 1, 3), ('[[?,{"?":', 0, 0, 3, '[{"?":?}]', 0, 0, 3), ('???', 2, 0, 2, '???', 0, 0, 2)]
     for r in RD:
         L.append(ob("reset/dec/%s,o%d,r%d,k%d/then/%s,o%d,r%d,k%d" % r, P, "VerifC18ResetDec", list(r), covers=["end", "first-use-ended-in-error", "first-use-left-nested"]))
     RE = [('{"?":{"?":', 0, 0, '{"?":?}', 0, 0, False), ('[{"?":1},', 1, 1, '{"?":1,"?":2}', 0, 0, True), ('{"?":1,"?":2}', 4, 0, '[?,{"?":1}]', 3, 1, False), ('[?', 0, 1, '{"?":1,"?":2}', 0, 1, True)]
